@@ -243,6 +243,46 @@ pub fn install_panic_hook() {
     }));
 }
 
+thread_local! {
+    /// set for the runs that share their thread with a neighbour tenant (see `neighbour_tenant`)
+    pub static NEIGHBOUR: std::cell::Cell<bool> = const { std::cell::Cell::new(false) };
+}
+
+/// "Another tenant works on the same thread": before a delivery of the run, a neighbour that keeps
+/// its own statistics in the OTHER element type is handed the same records (and, once more, the
+/// first of them, so that its most recent request concerns the value the run is about to deliver),
+/// then asks for its intervals. Its states are thrown away. Whatever the library remembers between
+/// calls on this thread (a memo of the last logarithm, a scratch buffer) now comes from a foreign
+/// request when the run's own request arrives; the run's oracles do not change.
+pub fn neighbour_tenant(flt: Flt, recs: [&[Bits]; 2]) {
+    fn feed<G: Fl>(xs: &[f64]) {
+        let mut a = Arithmetic::<G>::new();
+        let mut g = Geometric::<G>::new();
+        let mut h = Harmonic::<G>::new();
+        for &x in xs.iter().chain(xs.first()) {
+            let v = G::from_f64_lossy(x);
+            let _ = StatisticsOps::append(&mut a, v);
+            let _ = StatisticsOps::append(&mut h, v);
+            let _ = StatisticsOps::append(&mut g, v);
+        }
+        let cf = conf(18);
+        let _ = a.ci_mean(cf);
+        let _ = h.ci_mean(cf);
+        let _ = g.ci_mean(cf);
+    }
+    if flt == Flt::Int {
+        return;
+    }
+    let xs: Vec<f64> = recs[0].iter().chain(recs[1].iter()).map(|&b| crate::tape::decode(b, flt)).collect();
+    if xs.is_empty() {
+        return;
+    }
+    let _ = guard(|| match flt {
+        Flt::F32 => feed::<f64>(&xs),
+        _ => feed::<f32>(&xs),
+    });
+}
+
 /// message (and location) of the last panic seen by this thread
 pub fn last_panic_message() -> String {
     LAST_PANIC.with(|p| p.borrow().clone())
@@ -453,7 +493,7 @@ impl<F: Fl> Machine for MKahan<F> {
     const TRANSFORM: Transform = Transform::Id;
     const STREAMS: usize = 1;
     const LOCKSTEP: bool = false;
-    const N_STYLES: u8 = 6;
+    const N_STYLES: u8 = 8;
     const N_EMPTY: u8 = 3;
     const N_MERGE: u8 = 4;
     const HAS_VAR: bool = false;
@@ -511,10 +551,26 @@ impl<F: Fl> Machine for MKahan<F> {
                 }
                 *s = *s + p;
             }
-            _ => {
+            5 => {
                 // one register per record (the README's par_iter shape)
                 for &x in &xs {
                     *s += KahanSum::new(x);
+                }
+            }
+            6 => {
+                // the running register is an explicit clone at every step (what code generic over
+                // T: Clone does, and what `iter().cloned()` does)
+                #[allow(clippy::clone_on_copy)]
+                for &x in &xs {
+                    *s = Clone::clone(&*s) + x;
+                }
+            }
+            _ => {
+                // per-record registers collected first, then folded through `.iter().cloned()`
+                let regs: Vec<KahanSum<F>> = xs.iter().map(|&x| KahanSum::new(x)).collect();
+                #[allow(clippy::clone_on_copy)]
+                for p in regs.iter().cloned() {
+                    *s = Clone::clone(&*s) + p;
                 }
             }
         });
@@ -524,8 +580,8 @@ impl<F: Fl> Machine for MKahan<F> {
         }
     }
     fn style_name(style: u8) -> &'static str {
-        ["+=x", "s+x", "new(x0)+=rest; s+=p", "from(x0)+=rest; s=p+s", "default+=all; s=s+p", "s+=new(x) each"]
-            [(style % 6) as usize]
+        ["+=x", "s+x", "new(x0)+=rest; s+=p", "from(x0)+=rest; s=p+s", "default+=all; s=s+p", "s+=new(x) each", "s=s.clone()+x each", "regs.iter().cloned(): s=s.clone()+p"]
+            [(style % 8) as usize]
     }
     fn merge(a: Self::S, b: Self::S, op: u8) -> Self::S {
         match op % Self::N_MERGE {
@@ -608,9 +664,13 @@ where
         }
         7 => {
             // the README's parallel shape: one single-element state per record, folded in
-            for &x in xs {
+            // (every other step takes the running state through an explicit Clone::clone, as code
+            // generic over T: Clone does; for a Copy type both must be the same thing)
+            for (i, &x) in xs.iter().enumerate() {
                 let p = T::from_iter(&[x])?;
-                *s = *s + p;
+                #[allow(clippy::clone_on_copy)]
+                let cur = if i % 2 == 0 { *s } else { Clone::clone(&*s) };
+                *s = cur + p;
             }
             Ok(())
         }
@@ -714,20 +774,25 @@ macro_rules! mean_machine {
             fn observe(s: &Self::S, plan: ObsPlan) -> Obs {
                 let mut o: Obs = Vec::with_capacity(6 + plan.confs.len());
                 let n = s.sample_count();
+                // two documented ways to the same accessors: the inherent methods and the
+                // StatisticsOps trait (generic callers); states with an even count are asked
+                // through the trait, the others directly - every oracle applies to both
+                let via_trait = n % 2 == 0;
+                let n = if via_trait { <$T<F> as StatisticsOps<F>>::sample_count(s) } else { n };
                 o.push((What::Count(0), Val::U(n as u64)));
                 // scalar accessors are only asked where they are defined (they are not
                 // interval-computing entry points: their behaviour on tiny states is outside
                 // C11); the interval is asked regardless when the plan is unguarded
                 if n >= 1 {
-                    o.push((What::Mean(0), scalar(|| s.sample_mean().w())));
+                    o.push((What::Mean(0), scalar(|| if via_trait { <$T<F> as StatisticsOps<F>>::sample_mean(s).w() } else { s.sample_mean().w() })));
                 }
                 if n >= 2 {
                     observe_var::<F, Self>(s, &mut o);
-                    o.push((What::Sem(0), scalar(|| s.sample_sem().w())));
+                    o.push((What::Sem(0), scalar(|| if via_trait { <$T<F> as StatisticsOps<F>>::sample_sem(s).w() } else { s.sample_sem().w() })));
                 }
                 if n >= 2 || plan.unguarded {
                     for &c in plan.confs {
-                        o.push((What::Ci(c), Val::Ci(call(|| s.ci_mean(conf(c)), |i| iv_f(&i)))));
+                        o.push((What::Ci(c), Val::Ci(call(|| if via_trait { <$T<F> as StatisticsOps<F>>::ci_mean(s, conf(c)) } else { s.ci_mean(conf(c)) }, |i| iv_f(&i)))));
                     }
                 }
                 o
